@@ -2,6 +2,8 @@
 EXTENDS Coll, Json
 \* Gen runs: one line per finished run - the predicted event trace, which is also the scenario
 EmitRun == (st.pc = "end") => PrintT(<<"SCN", ToJson(hist)>>)
+\* Gen, state cover: one line per distinct poll-boundary state (the BFS path that reached it first)
+EmitIdle == (st.pc = "idle" /\ Len(hist) > 0) => PrintT(<<"SCN", ToJson(hist)>>)
 \* bound the length of Gen runs
 Short == Len(hist) <= 60
 =============================================================================
